@@ -294,13 +294,36 @@ Definition node_loopC (rec : nrecC) (g : game) (real beta remaining : Z)
       end
   end.
 
-Definition node_finishC (g : game) (st : sstate) (remaining alpha beta : Z) (res : coutcome lstate)
+(* score_to_table saturates (saturating_add / saturating_sub, then min / max with the mate bound, which is
+   inside i16): no overflow site, the pure function of Model/Search.v is used as it is.
+   score_from_table uses the plain `-` / `+` of i16:
+     entry.score - real_depth as Score     1961: sub16
+     entry.score + real_depth as Score     1962: add16 *)
+Definition entry_from_tableC (real : Z) (o : option entry) : option entry + Z :=
+  match o with
+  | None => inl None
+  | Some en =>
+      let s := e_score en in
+      if SCORE_MAX - TABLE_MATE_MARGIN <? s then
+        match sub16 s real with
+        | Some x => inl (Some (mkEntry x (e_pv en) (e_depth en) (e_flag en)))
+        | None => inr 1961
+        end
+      else if s <? SCORE_MIN + TABLE_MATE_MARGIN then
+        match add16 s real with
+        | Some x => inl (Some (mkEntry x (e_pv en) (e_depth en) (e_flag en)))
+        | None => inr 1962
+        end
+      else inl (Some (mkEntry s (e_pv en) (e_depth en) (e_flag en)))
+  end.
+
+Definition node_finishC (g : game) (st : sstate) (real remaining alpha beta : Z) (res : coutcome lstate)
   : coutcome Z * sstate :=
   match res with
   | CDone l =>
       let flag := if l_bscore l <=? alpha then UpperBound
                   else if beta <=? l_bscore l then LowerBound else Exact in
-      let ne := mkEntry (l_bscore l) (l_best l) remaining flag in
+      let ne := mkEntry (score_to_table (l_bscore l) real) (l_best l) remaining flag in
       let st' := l_st l in
       (CDone (l_alpha l), with_tbl st' (store_node (s_tbl st') (g_hash g) ne))
   | CAborted sa => (CAborted sa, sa)
@@ -313,7 +336,9 @@ Fixpoint nodeC (rem : nat) (g : game) (st : sstate) (real alpha beta : Z) {struc
   if negb (s_running st) then (CAborted st, st)
   else
     let remaining := Z.of_nat rem in
-    let e := tfind (s_tbl st) (g_hash g) in
+    match entry_from_tableC real (tfind (s_tbl st) (g_hash g)) with
+    | inr k => (COverflow k, st)
+    | inl e =>
     match probe e remaining alpha beta with
     | Some s => (CDone s, st)
     | None =>
@@ -326,10 +351,11 @@ Fixpoint nodeC (rem : nat) (g : game) (st : sstate) (real alpha beta : Z) {struc
             | [] => (liftC (no_move_scoreC 2161 g MATE_OFFSET_NODE real), st)
             | moves =>
                 let sorted := sort_moves (fun m => move_score m pv_move (znth (s_killers st) real None) (s_hist st)) moves in
-                node_finishC g st remaining alpha beta
+                node_finishC g st real remaining alpha beta
                   (node_loopC (nodeC rem') g real beta remaining sorted 0 (mkL alpha None SCORE_MIN st))
             end
         end
+    end
     end.
 
 (* ---- get_best_move_entry (the root) ------------------------------------------------------------------------ *)
